@@ -36,19 +36,20 @@ FilterVerdict(e) ==
   ELSE IF Len(e.out) > 1 /\ Len(Carried(SubSeq(e.out, 1, Len(e.out) - 1))) >= Len(want) THEN "more-packets-than-needed"
   ELSE ""
 \* the three queries of a decoded PMT against an abstract PMT (stream list, PID list, PID-existence on a set of probes)
-QueryVerdict(streams, pids, exists, want, tag) ==
+QueryVerdict(streams, pids, exists, again, want, tag) ==
   IF [i \in 1..Len(streams) |-> <<streams[i][1], streams[i][2]>>]
           # [i \in 1..Len(want.streams) |-> <<want.streams[i].type, want.streams[i].pid>>] THEN tag \o "streams"
   ELSE IF pids # PidList(want) THEN tag \o "pid-list"
   ELSE IF \E i \in 1..Len(exists) : exists[i][2] # (IF InSeq(exists[i][1], PidList(want)) THEN 1 ELSE 0) THEN tag \o "pid-exists"
+  ELSE IF again # pids THEN tag \o "pid-list-changed-by-the-existence-query"
   ELSE ""
 \* a history on one decoded PMT: (queries), removal, queries, second removal, queries - every answer is the one of the
 \* stream list at that moment, whatever the object was asked before
 RemoveVerdict(e) ==
   LET pmt == Abs(e.abs)  want == Remove(pmt, e.remove)  want2 == Remove(want, e.remove2)
-      v0 == IF e.pre THEN QueryVerdict(e.streams_before, e.pids_before, e.exists_before, pmt, "before-removal-") ELSE ""
-      v1 == QueryVerdict(e.streams_after, e.pids_after, e.exists_after, want, "remove-")
-      v2 == QueryVerdict(e.streams_after2, e.pids_after2, e.exists_after2, want2, "second-removal-") IN
+      v0 == IF e.pre THEN QueryVerdict(e.streams_before, e.pids_before, e.exists_before, e.pids_again_before, pmt, "before-removal-") ELSE ""
+      v1 == QueryVerdict(e.streams_after, e.pids_after, e.exists_after, e.pids_again_after, want, "remove-")
+      v2 == QueryVerdict(e.streams_after2, e.pids_after2, e.exists_after2, e.pids_again_after2, want2, "second-removal-") IN
   IF ~WFPmt(pmt) \/ e.payload # PmtPayload(0, <<>>, pmt, 0) THEN "harness-bad-bytes"
   ELSE IF v0 # "" THEN v0 ELSE IF v1 # "" THEN v1 ELSE v2
 Verdict(e) == IF e.panic # "" THEN "panic"
